@@ -11,6 +11,7 @@ CLAIMED = {
     "C06": ("proof", "closed forms of the version-query wrapper (generic in the wrapped handler) and of each reaction; a listen step never parks anything (generic theorem)"),
     "C07": ("proof", "send and the wake step in closed form for every buffer content: parked until the wake, released once, only that node, last parked value"),
     "C08": ("proof", "release loop and wake step in closed form for every fault stream: failure reported, delivered prefix removed, the rest stays, nothing twice"),
+    "C09": ("proof", "PARTIAL: for every schedule of the flush/send race (small-step system whose scheduler may place sends at every step boundary) no update is lost, every write was sent, nothing is written twice; assumed: asyncio atomicity between suspension points, write is the only suspension point in the flush"),
     "C10": ("proof", "closed forms of the missing-node/child wrapper (generic in the wrapped handler), the request logic and the marker clearing; table facts on which handlers carry the wrapper"),
     "C11": ("proof", "allocation step theorem for every registry and fault stream; registered ids only grow over all histories"),
     "C12": ("proof", "trichotomy proved for every case but one; the remaining case (internal command, buffering allowed) proved refuted = known finding"),
